@@ -10,7 +10,7 @@ use crate::proc::{run_blots, scratch_file};
 use indexmap::IndexMap;
 use serde_json::{Value as J, json};
 
-const ALPHABET: [&str; 12] = [
+const ALPHABET: [&str; 13] = [
     "a = 1",
     "output b = 2",
     "output a",
@@ -23,6 +23,8 @@ const ALPHABET: [&str; 12] = [
     "output g = [#k, inputs.k, #missing, inputs.missing]",
     "output v = [#value_1, inputs.value_2, #j]",
     "output whole = inputs",
+    // a binding made inside the value of an output declaration is a top-level binding like any other
+    "output t = (a = 10) + 5",
 ];
 
 #[derive(Clone, Debug)]
@@ -159,6 +161,14 @@ fn model_run(script: &[usize], inputs: &IndexMap<String, J>) -> ModelResult {
                 let v = json!([inp("k"), inp("k"), J::Null, J::Null]);
                 env.insert("g".into(), v.clone());
                 outputs.insert("g".into(), v);
+            }
+            "output t = (a = 10) + 5" => {
+                if env.contains_key("t") || env.contains_key("a") {
+                    return fail(outputs);
+                }
+                env.insert("a".into(), num(10));
+                env.insert("t".into(), num(15));
+                outputs.insert("t".into(), num(15));
             }
             "output whole = inputs" => {
                 if env.contains_key("whole") {
@@ -438,7 +448,7 @@ pub fn run(ctx: &Ctx, replay: Option<&J>) -> i32 {
     finish(
         ctx,
         "model_checking",
-        "model traces = every script of length <= 3/4 over an 12-statement alphabet (bind, output-with-binding, output of bound/unbound name, re-output, evaluation failure, non-portable function output, parse error, comment, #name / inputs.name reads, value_n reads) x 22 input sets (0..3 --input flags and/or stdin; objects with overlapping keys, arrays, scalars, explicit value_1 key, empty stdin, invalid JSON) x 5 invocation modes (file, inline, -e stdin, -o onto a missing file, -o onto a file holding a longer earlier outputs object); every trace is executed by the real binary and compared with the model; plus 70 KB non-ASCII sources (2-, 3-, 4-byte characters at every phase) as file, on -e stdin in one write and in 4093-byte chunks (exit status biconditional, exactly one outputs object with the model's keys in declaration order and values, no object / no file on failure, diagnostics present); distinct = distinct (script, inputs, mode)",
+        "model traces = every script of length <= 3/4 over a 13-statement alphabet (bind, output-with-binding, output of bound/unbound name, re-output, evaluation failure, non-portable function output, parse error, comment, #name / inputs.name reads, value_n reads) x 22 input sets (0..3 --input flags and/or stdin; objects with overlapping keys, arrays, scalars, explicit value_1 key, empty stdin, invalid JSON) x 5 invocation modes (file, inline, -e stdin, -o onto a missing file, -o onto a file holding a longer earlier outputs object); every trace is executed by the real binary and compared with the model; plus 70 KB non-ASCII sources (2-, 3-, 4-byte characters at every phase) as file, on -e stdin in one write and in 4093-byte chunks (exit status biconditional, exactly one outputs object with the model's keys in declaration order and values, no object / no file on failure, diagnostics present); distinct = distinct (script, inputs, mode)",
         true,
         Some((scripts.len() as u64 * sets.len() as u64, n, n)),
     )
